@@ -22,7 +22,7 @@ ASSUMED (owned by other areas; named in the evidence of every unit that uses the
 from vf.pyvc.contracts import Contract, ClassContract, apply_contract, fresh_object, eval_clause, _as_z3
 from vf.pyvc.interp import exc
 from vf.pyvc.values import Ref, Unsupported
-from .sig_common import common_registry, add_points, INT, OINT, PT, CURVE
+from .sig_common import common_registry, add_points, new_integer, INT, OINT, PT, CURVE
 
 E = 'Crypto.Signature.eddsa.'
 SCH = E + 'EdDSASigScheme'
@@ -34,7 +34,9 @@ R = 'spec.rfc8032.'
 
 CURVES = ('Ed25519', 'Ed448')
 CID = {'Ed25519': R + 'ED25519', 'Ed448': R + 'ED448'}
-GID = {'Ed25519': 25519, 'Ed448': 448}                      # == spec.rfc8032.ED25519 / ED448 (checked in registry())
+GID = {'Ed25519': 25519, 'Ed448': 448}                      # == spec.rfc8032.ED25519 / ED448
+LNUM = {'Ed25519': 2 ** 252 + 27742317777372353535851937790883648493,       # == spec.rfc8032.L25519 / L448: the class invariants
+        'Ed448': 2 ** 446 - 13818066809895115352007386748515426880336692474882178609894547503885}   # below state the equality
 BLEN = {'Ed25519': 32, 'Ed448': 57}
 LVAL = {'Ed25519': R + 'L25519', 'Ed448': R + 'L448'}
 HCLS = {'Ed25519': SHA, 'Ed448': XOF}
@@ -58,27 +60,21 @@ def is_curve(c):
     return 'self._key.curve == "%s"' % c
 
 
+# a message is a byte string in the sense of py3compat.is_bytes: bytes, bytearray or memoryview; its value is bytes(msg_or_hash)
 def type_ok(c):
-    return '(isinstance(msg_or_hash, bytes) or isinstance(msg_or_hash, %s))' % HNAME[c]
+    return '(is_bytes(msg_or_hash) or isinstance(msg_or_hash, %s))' % HNAME[c]
 
 
 def flag(c):
-    return '(0 if isinstance(msg_or_hash, bytes) else 1)'
+    return '(0 if is_bytes(msg_or_hash) else 1)'
 
 
 def phm(c):
-    return '(msg_or_hash if isinstance(msg_or_hash, bytes) else %s)' % PHOBJ[c]
+    return '(bytes(msg_or_hash) if is_bytes(msg_or_hash) else %s)' % PHOBJ[c]
 
 
 def accept(c):
     return R + 'verify_ok(%s, %s, %s, self._context, %s, %s, signature)' % (CID[c], BASE, PUB, flag(c), phm(c))
-
-
-def sign_args(c, which):
-    a = {'r': (CID[c], 'self._key._prefix', 'self._context', flag(c), phm(c)),
-         'R': (CID[c], BASE, 'self._key._prefix', 'self._context', flag(c), phm(c)),
-         'S': (CID[c], BASE, 'self._key._d._value', 'self._key._prefix', PUB, 'self._context', flag(c), phm(c))}[which]
-    return R + 'sign_%s(%s)' % (which, ', '.join(a))
 
 
 def signature_of(c):
@@ -155,6 +151,11 @@ def model_construct(Eng, st, args, kwargs):
     return apply_contract(Eng, c, st, a, {})
 
 
+def order_object(curve):
+    """field type of an Integer object whose value is the LITERAL L of the curve (keeps `x % L` linear)"""
+    return ('make', lambda Eng, st, name: new_integer(st, LNUM[curve]), 'Integer(L)')
+
+
 def add_ed_key(reg, curve=None):
     """curve: None = any key (the curve name is 'Ed25519', 'Ed448' or another string); 'Ed25519' / 'Ed448' = the registry is
     specialised to keys on that curve (the name and the ghost id of the parameter set are constants: fewer case splits, and
@@ -164,7 +165,7 @@ def add_ed_key(reg, curve=None):
                      returns='self.g_pt == point.g_pt', modifies=[], options={'exact': True},
                      assumed='point comparison == equality of the abstract group elements (C06; bounded/ec.py k_group)'))
     # the curve object of a key: parameter set designated by g_id; L is the constant of RFC 8032 5.1 / 5.2
-    point = 'obj:%s|none' % PT
+    point, oint = 'obj:%s|none' % PT, OINT
     if curve is None:
         gid, name = 'int', "enum('Ed25519','Ed448')|str"
         order = ['self.g_id == %sED25519 ==> self.order._value == %sL25519' % (R, R),
@@ -172,8 +173,9 @@ def add_ed_key(reg, curve=None):
     else:
         gid, name = ('const', GID[curve]), ('const', curve)
         point = 'obj:' + PT          # every key met by sign / verify has its public point (scheme invariant, import_public_key, EccKey(point=))
+        oint = order_object(curve)
         order = ['self.order._value == %s' % LVAL[curve]]
-    reg.add(ClassContract(CURVE, fields={'order': OINT, 'G': 'obj:' + PT, 'g_id': gid},
+    reg.add(ClassContract(CURVE, fields={'order': oint, 'G': 'obj:' + PT, 'g_id': gid},
                           valid=['self.order._value >= 2', 'spec.mathint.prime(self.order._value)', 'self.G.g_curve == self.g_id'] + order))
     reg.add(ClassContract(KEY,
                           fields={'_curve': 'obj:' + CURVE, '_point': point, '_d': OINT + '|none', '_prefix?': 'bytes', 'curve': name},
@@ -236,8 +238,9 @@ def add_hashes(reg):
 
 # ---------------------------------------------------------------- the scheme object
 
-def add_scheme(reg):
-    reg.add(ClassContract(SCH, fields={'_key': 'obj:' + KEY, '_context': 'bytes', '_A': 'bytes', '_order': OINT},
+def add_scheme(reg, curve=None):
+    reg.add(ClassContract(SCH, fields={'_key': 'obj:' + KEY, '_context': 'bytes', '_A': 'bytes',
+                                       '_order': OINT if curve is None else order_object(curve)},
                           valid=['len(self._context) <= 255',                                   # new(): longer contexts are refused
                                  'self._key._point is not None',                                # __init__ exports (and caches) the public point
                                  'self._A == %senc(self._key._curve.g_id, self._key._point.g_pt)' % R,
@@ -255,9 +258,46 @@ def import_public():
                     modifies=[], options=dict(OPTS))
 
 
+def import_private():
+    cur = R + 'pk_curve(encoded)'
+    return Contract(E + 'import_private_key', params={'encoded': 'bytes'},
+                    raises={'ValueError': ('iff', 'len(encoded) != 32 and len(encoded) != 57')},
+                    result='obj:' + KEY,
+                    ensures={'curve': 'result.curve == ("Ed25519" if len(encoded) == 32 else "Ed448") and result._curve.g_id == ' + cur,
+                             'private': 'result._d is not None and result._d._value == %ssecret_scalar(%s, encoded)' % (R, cur),
+                             'prefix': 'hasattr(result, "_prefix") and result._prefix == %sprefix(%s, encoded)' % (R, cur)},
+                    modifies=[], options=dict(OPTS))
+
+
+KEYQ = '(key._point.g_pt if key._point is not None else spec.fips186.pmul(key._curve.G.g_pt, key._d._value))'
+
+
+def scheme_init():
+    """EdDSASigScheme.__init__(key, context): the four fields; the public point of a private key is computed (and cached in the key)"""
+    return Contract(SCH + '.__init__', params={'key': 'obj:' + KEY, 'context': 'bytes'}, self_type='new:' + SCH,
+                    raises={'ValueError': ('iff', 'key._curve.g_id != %sED25519 and key._curve.g_id != %sED448' % (R, R))},
+                    ensures={'key': 'self._key is key', 'context': 'self._context == context',
+                             'A': 'self._A == %senc(key._curve.g_id, old(%s))' % (R, KEYQ),
+                             'order': 'self._order is key._curve.order',
+                             'public_point': 'key._point is not None and key._point.g_pt == old(%s) and key._point.g_curve == key._curve.g_id' % KEYQ},
+                    sets={'self._key': 'key', 'self._context': 'context', 'self._order': 'key._curve.order'},
+                    modifies={'self._key': None, 'self._context': None, 'self._order': None, 'self._A': 'bytes', 'key._point': 'obj:' + PT},
+                    options=dict(OPTS, assume_valid=False), requires=['valid(key)'])
+
+
+def scheme_new():
+    ok_key = 'isinstance(key, EccKey) and (key.curve == "Ed25519" or key.curve == "Ed448")'
+    return Contract(E + 'new', params={'key': 'obj:%s|any' % KEY, 'mode': "enum('rfc8032')|str", 'context': 'none|bytes'},
+                    raises={'ValueError': ('iff', 'not (%s) or mode != "rfc8032" or (context is not None and len(context) > 255)' % ok_key)},
+                    result='obj:' + SCH,
+                    ensures={'key': 'result._key is key', 'context': 'result._context == (b"" if context is None else context)',
+                             'valid': 'valid(result)', 'scheme': 'isinstance(result, EdDSASigScheme)'},
+                    modifies={'key._point': 'obj:' + PT}, options=dict(OPTS))
+
+
 def verify_leaf(c):
     fn = {'Ed25519': '_verify_ed25519', 'Ed448': '_verify_ed448'}[c]
-    return Contract(SCH + '.' + fn, params={'msg_or_hash': 'bytes|obj:' + HCLS[c], 'signature': 'bytes', 'ph': 'enum(False, True)'},
+    return Contract(SCH + '.' + fn, params={'msg_or_hash': 'buffer|obj:' + HCLS[c], 'signature': 'bytes', 'ph': 'enum(False, True)'},
                     requires=[is_curve(c), 'ph == isinstance(msg_or_hash, %s)' % HNAME[c]],
                     raises={'ValueError': ('iff', 'not ' + accept(c))},
                     ensures={'none': 'result is None'},
@@ -266,17 +306,14 @@ def verify_leaf(c):
 
 def sign_leaf(c):
     fn = {'Ed25519': '_sign_ed25519', 'Ed448': '_sign_ed448'}[c]
-    return Contract(SCH + '.' + fn, params={'msg_or_hash': 'bytes|obj:' + HCLS[c], 'ph': 'enum(False, True)'},
+    return Contract(SCH + '.' + fn, params={'msg_or_hash': 'buffer|obj:' + HCLS[c], 'ph': 'enum(False, True)'},
                     requires=[is_curve(c), 'self._key._d is not None', 'ph == isinstance(msg_or_hash, %s)' % HNAME[c]],
                     raises={},
                     ensures={'rfc8032': 'result == ' + signature_of(c), 'length': 'len(result) == 2 * %sblen(%s)' % (R, CID[c])},
-                    lemmas={'exit': {'R': 'result[:%d] == %s' % (BLEN[c], sign_args(c, 'R')),
-                                     'S': 'result[%d:] == i2le(%s, %d)' % (BLEN[c], sign_args(c, 'S'), BLEN[c]),
-                                     'halves': 'result == result[:%d] + result[%d:]' % (BLEN[c], BLEN[c])}},
                     result='bytes', modifies=[], options=dict(OPTS))
 
 
-ANYMSG = 'bytes|obj:%s|obj:%s|any' % (SHA, XOF)
+ANYMSG = 'buffer|obj:%s|obj:%s|any' % (SHA, XOF)
 
 
 def verify_top():
@@ -306,11 +343,14 @@ def registry(curve=None):
     reg = common_registry()
     add_ed_key(reg, curve)
     add_hashes(reg)
-    add_scheme(reg)
+    add_scheme(reg, curve)
     for c in CURVES:
         reg.add(verify_leaf(c))
         reg.add(sign_leaf(c))
     reg.add(import_public())
+    reg.add(import_private())
+    reg.add(scheme_init())
+    reg.add(scheme_new())
     reg.add(verify_top())
     reg.add(sign_top())
     return reg
@@ -318,9 +358,18 @@ def registry(curve=None):
 
 def units(prop, tier):
     from vf.pyunit import pyvc_unit
-    if prop not in ('C04',):
+    if prop not in ('C04', 'C19'):
         return []
+    ed25519, ed448 = (lambda: registry('Ed25519')), (lambda: registry('Ed448'))
     out = []
-    out.append(pyvc_unit(prop, 'sig.eddsa.verify_ed25519', registry, [SCH + '._verify_ed25519']))
-    out.append(pyvc_unit(prop, 'sig.eddsa.verify_ed448', registry, [SCH + '._verify_ed448']))
+    # frames: sign / verify leave the caller's hash / XOF object (and everything else) unchanged -- C04 "inputs are not consumed", C19
+    out.append(pyvc_unit(prop, 'sig.eddsa.verify_ed25519', ed25519, [SCH + '._verify_ed25519']))
+    out.append(pyvc_unit(prop, 'sig.eddsa.verify_ed448', ed448, [SCH + '._verify_ed448']))
+    out.append(pyvc_unit(prop, 'sig.eddsa.verify', registry, [SCH + '.verify']))
+    out.append(pyvc_unit(prop, 'sig.eddsa.sign_ed25519', ed25519, [SCH + '._sign_ed25519']))
+    out.append(pyvc_unit(prop, 'sig.eddsa.sign_ed448', ed448, [SCH + '._sign_ed448']))
+    out.append(pyvc_unit(prop, 'sig.eddsa.sign', registry, [SCH + '.sign']))
+    if prop == 'C04':
+        out.append(pyvc_unit(prop, 'sig.eddsa.import', registry, [E + 'import_public_key', E + 'import_private_key']))
+        out.append(pyvc_unit(prop, 'sig.eddsa.new', registry, [SCH + '.__init__', E + 'new']))
     return out
